@@ -24,6 +24,7 @@ from ..lib import core
 from ..lib import walk as W
 from ..lib.core import Failure, Disagreement, InfraError
 from ..extract import flush as _ex
+from ..extract import flushopen as _exo
 
 PROP = "C17"
 LEAN_MODULE = "NixModel.Props.C17"
@@ -44,6 +45,14 @@ THEOREMS = [
     "Nix.C17.C17_close_needs_flush",
     "Nix.C17.C17_closed_refused",
     "Nix.C17.C17_readonly_inert",
+    "Nix.C17.C17_open_table",
+    "Nix.C17.C17_mode_flags",
+    "Nix.C17.C17_fapl_shape",
+    "Nix.C17.C17_locking_bounds",
+    "Nix.C17.C17_open_refines",
+    "Nix.C17.C17_reopen_not_refused",
+    "Nix.C17.C17_locking_fapl_refuses",
+    "Nix.C17.C17_detached_loses",
 ]
 ASSUMPTIONS = [
     "libhdf5's H5Fflush and the operating system honour the flush: in the model `h5flush` IS `disk := cache`; "
@@ -55,18 +64,30 @@ ASSUMPTIONS = [
     "a store is a map object-path -> canonical record (container order lives in the parent's record); the "
     "model is fed the difference between consecutive flush-point walks recorded by the child itself",
     "Python's `with` statement calls __exit__ on every way out of the block (language semantics, trusted)",
+    "open path: libhdf5 writes a version-3 superblock, whose 'open for write' mark outlives a killed writer, exactly "
+    "when the lower library-version bound of the property list is 1.10 or newer (modelled as `locking`; validated "
+    "on every run by writers whose property list carries such bounds - model vs libhdf5); a zero-byte file is a "
+    "state of the path in the decision table only (nothing in the model produces one)",
 ]
 TRUSTED_EXTRA = [
     "harness/extract/flush.py renders the bodies of File.flush/close/__exit__ (calls on self._h5file, gc.collect, "
     "inlined self.close()/self.flush()) and checks self._h5file = h5py.File(fid)",
+    "harness/extract/flushopen.py runs File.__init__ symbolically over (missing / empty / non-empty path) x (r, a, w) "
+    "and renders map_file_mode, the calls of make_fapl() and the arguments of h5py.h5f.create / h5py.h5f.open",
     "harness/lib/walk.py (canonical walk through the public API) and harness/props/c17_child.py (history "
     "generator, flush-point recorder, SIGKILL)",
 ]
 
 # (F) anchor fingerprints of the pinned tree — budget steering only (DESIGN 2.3 F): an edited anchor raises
 # the quick tier's kill budget, it is neither an alarm nor a tie
-ANCHOR_FP = {"__init__": "9566de7fd0a40144", "__enter__": "b5f2af836ab23acf", "__exit__": "955af8e558e944d6",
-             "flush": "09d35fdc75d91db5", "close": "f1030127f1659001"}
+ANCHOR_FP = {"__init__": "42d3f1d700288f69",
+             "__enter__": "b5f2af836ab23acf",
+             "__exit__": "955af8e558e944d6",
+             "flush": "09d35fdc75d91db5",
+             "close": "f1030127f1659001",
+             "make_fapl": "ca7f59682aa5177f",
+             "make_fcpl": "a848c24e516ae1e5",
+             "map_file_mode": "8f33b4db03bd99d1"}
 
 
 def anchors_changed():
@@ -80,7 +101,9 @@ WORKERS = 8
 
 
 def extract(repo):
-    return _ex.extract(repo)
+    out = dict(_ex.extract(repo))
+    out.update(_exo.extract(repo))
+    return out
 
 
 # ---------------------------------------------------------------------------------------
@@ -138,7 +161,7 @@ def run_chain(ctx, chain, tag, upto=None, final_end=None):
             end = final_end
         spec = {"file": path, "mode": g["mode"], "seed": gen_seed(chain, i), "phases": g["phases"],
                 "end": end, "out": out, "big": g.get("big", True), "kill": True,
-                "compression": g.get("compression")}
+                "compression": g.get("compression"), "profiles": g.get("profiles"), "fapl": g.get("fapl")}
         rc, err = _run_py(ctx, spec, "%s.g%d" % (tag, i))
         o = _load(out)
         if o is None:
@@ -185,12 +208,77 @@ def gen_chain(rng, quick, n_gens=None, stratum=None):
         else:
             hi = 18 if quick else 30
             phases = [rng.randrange(4, hi) for _ in range(k)]
-        gens.append({"mode": mode, "phases": phases, "end": rng.choice(ENDS),
-                     "big": rng.random() < (0.35 if quick else 0.5),
-                     "compression": rng.choice(FILE_COMPRESSIONS)})
+        g = {"mode": mode, "phases": phases, "end": rng.choice(ENDS),
+             "big": rng.random() < (0.35 if quick else 0.5),
+             "compression": rng.choice(FILE_COMPRESSIONS)}
+        if mode != "r":
+            # phases of a single kind of write between two flush points (the first phase of a writer that finds
+            # content may be one too)
+            profs = []
+            for j in range(len(phases)):
+                special = (j > 0 and rng.random() < 0.5) or (j == 0 and i > 0 and mode == "a" and rng.random() < 0.3)
+                profs.append(rng.choice(SPECIAL_PROFILES) if special else "mixed")
+            if any(pr != "mixed" for pr in profs):
+                g["profiles"] = profs
+        gens.append(g)
     if stratum is not None:
         gens[0]["compression"], gens[0]["end"] = stratum
     return {"kind": "chain", "seed": rng.randrange(10 ** 9), "gens": gens}
+
+
+SPECIAL_PROFILES = ["inplace", "delete_only", "append_only", "attrs_only"]
+
+
+def gen_profile_chain(rng, profile, quick, reopen=False):
+    """one writer: a mixed phase, flush, then (one or two) phases of a single kind of write, each followed by a
+    flush point; killed after the last flush.  With reopen: the single-kind phases run in a second writer that
+    re-opens the file read-write."""
+    n1 = rng.randrange(10, 18 if quick else 28)
+    k = rng.choice([1, 1, 2])
+    later = [rng.randrange(3, 9) for _ in range(k)]
+    end = rng.choice(["flush", "flush", "flush_flush", "close"])
+    comp = rng.choice(FILE_COMPRESSIONS)
+    if reopen:
+        gens = [{"mode": "w", "phases": [n1], "end": rng.choice(["flush", "close"]), "big": False,
+                 "compression": comp},
+                {"mode": "a", "phases": [rng.randrange(2, 5)] + later, "profiles": [profile] * (k + 1), "end": end,
+                 "big": False, "compression": comp}]
+    else:
+        gens = [{"mode": "w", "phases": [n1] + later, "profiles": ["mixed"] + [profile] * k, "end": end,
+                 "big": rng.random() < 0.3, "compression": comp}]
+    return {"kind": "chain", "seed": rng.randrange(10 ** 9), "gens": gens}
+
+
+# ---------------------------------------------------------------------------------------
+# probes of the open path's model: what libhdf5 does with library-version bounds on the property list
+
+LIBVERS = ["earliest", "v18", "v110", "v112", "v114", "v200", "latest"]
+LIBVER_RANK = {"earliest": 0, "v18": 1, "v110": 2, "v112": 3, "v114": 4, "v200": 5, "latest": 5}
+
+
+def fapl_pairs():
+    import h5py
+    have = [v for v in LIBVERS if hasattr(h5py.h5f, "LIBVER_" + v.upper())]
+    # libhdf5 refuses (earliest, earliest); high must not be below low
+    return [(lo, hi) for lo in have for hi in have
+            if LIBVER_RANK[lo] <= LIBVER_RANK[hi] and not (lo == "earliest" and hi == "earliest")]
+
+
+def gen_fapl_probes(rng, n):
+    pairs = fapl_pairs()
+    must = [p for p in [("earliest", "latest"), ("v18", "latest"), ("v110", "latest"), ("latest", "latest")]
+            if p in pairs]
+    rest = [p for p in pairs if p not in must]
+    rng.shuffle(rest)
+    chosen = (must + rest)[:max(n, len(must))] if n < len(pairs) else pairs
+    out = []
+    for k, (lo, hi) in enumerate(chosen):
+        end = ["flush", "close", "flush_flush", "exit"][k % 4] if n < len(pairs) else None
+        for e in ([end] if end else ["flush", "close"]):
+            out.append({"kind": "fapl", "seed": rng.randrange(10 ** 9),
+                        "gens": [{"mode": "w", "phases": [rng.randrange(3, 8)], "end": e, "big": False,
+                                  "compression": None, "fapl": [lo, hi]}]})
+    return out
 
 
 def _pmap(fn, items):
@@ -245,6 +333,10 @@ def model_events(rng, chain, recs):
     what the implementation showed"""
     evs = [["reset"]]
     expect = [("ok", None, "reset")]
+    if chain["gens"] and chain["gens"][0].get("fapl"):
+        # probe: the model's open path under the lower bound the child put on the property list
+        evs.append(["cfg", chain["gens"][0]["fapl"][0], True])
+        expect.append(("ok", None, "cfg"))
     store = {}          # the model's idea of the file content (mirror kept only to compute put/del events)
     exists = False
     keys = []
@@ -477,6 +569,60 @@ def session_same(e, m, i):
 
 
 # ---------------------------------------------------------------------------------------
+# File.__init__'s decision table on the implementation
+
+
+def open_decisions_impl(ctx):
+    """for every (state of the path, mode): what File.open does - which of h5py.h5f.create / h5py.h5f.open it
+    reaches, with which access flag, and the mode the File object reports; or the class of the refusal.
+    Returns [(path state, mode, ("ok", "create"|"open", "ACC_*", self.mode) | ("err", class name))]"""
+    import h5py
+    import nixio as nix
+    out = []
+    flagname = {h5py.h5f.ACC_RDONLY: "ACC_RDONLY", h5py.h5f.ACC_RDWR: "ACC_RDWR", h5py.h5f.ACC_TRUNC: "ACC_TRUNC"}
+    real_create, real_open = h5py.h5f.create, h5py.h5f.open
+    for ps in ("missing", "empty", "file"):
+        for m in ("r", "a", "w"):
+            path = ctx.tmpfile("decide-%s-%s.nix" % (ps, m))
+            if os.path.exists(path):
+                os.unlink(path)
+            if ps == "empty":
+                open(path, "w").close()
+            elif ps == "file":
+                nix.File.open(path, "w").close()
+            seen = []
+
+            def spy_create(name, flags=h5py.h5f.ACC_EXCL, *a, **k):
+                seen.append(("create", flagname.get(flags, str(flags))))
+                return real_create(name, flags, *a, **k)
+
+            def spy_open(name, flags=h5py.h5f.ACC_RDWR, *a, **k):
+                seen.append(("open", flagname.get(flags, str(flags))))
+                return real_open(name, flags, *a, **k)
+
+            h5py.h5f.create, h5py.h5f.open = spy_create, spy_open
+            f = None
+            try:
+                f = nix.File.open(path, m)
+                res = ("ok", seen[0][0], seen[0][1], f.mode) if len(seen) == 1 else ("err", "calls:%r" % (seen,))
+            except Exception as e:
+                res = ("err", type(e).__name__)
+            finally:
+                h5py.h5f.create, h5py.h5f.open = real_create, real_open
+                try:
+                    if f is not None:
+                        f.close()
+                except Exception:
+                    pass
+                try:
+                    os.unlink(path)
+                except OSError:
+                    pass
+            out.append((ps, m, list(res)))
+    return out
+
+
+# ---------------------------------------------------------------------------------------
 # correspondence
 
 
@@ -484,6 +630,8 @@ def _tally(dist, recs, chain):
     for g, rec in zip(chain["gens"], recs):
         dist["ends"][rec["end"]] = dist["ends"].get(rec["end"], 0) + 1
         dist["modes"][g["mode"]] = dist["modes"].get(g["mode"], 0) + 1
+        for pr in (g.get("profiles") or ["mixed"] * len(g["phases"])):
+            dist["profiles"][pr] = dist["profiles"].get(pr, 0) + 1
         fc = "%s/%s" % (g.get("compression"), g["mode"])
         dist["file_compression_by_mode"][fc] = dist["file_compression_by_mode"].get(fc, 0) + 1
         for op in rec["out"]["ops"]:
@@ -524,8 +672,22 @@ def correspondence(ctx):
                       n_gens=rng.choice([1, 2, 2, 3]) if strata else None)
         chains.append(c)
         kills += len(c["gens"])
+    # every single-kind profile between two flush points of one writer (and, thorough, of a re-opening writer)
+    profs = list(SPECIAL_PROFILES)
+    rng.shuffle(profs)
+    for pr in profs:
+        chains.append(gen_profile_chain(rng, pr, quick))
+    for pr in profs[:ctx.budget(1, 4)]:
+        chains.append(gen_profile_chain(rng, pr, quick, reopen=True))
+    for _ in range(ctx.budget(0, 12)):
+        chains.append(gen_profile_chain(rng, rng.choice(profs), quick, reopen=rng.random() < 0.3))
+    # probes of the open-path model (library-version bounds on the property list): model vs libhdf5 only, the
+    # property oracle does not look at them
+    chains.extend(gen_fapl_probes(rng, ctx.budget(5, 10 ** 6)))
     for _ in range(ctx.budget(150, 2000)):
         sessions.append(gen_session_case(rng))
+    # File.__init__'s decision for every (state of the path, mode), on the implementation
+    decisions = open_decisions_impl(ctx)
 
     # ---- kill chains (parallel child processes)
     allrecs = _pmap(lambda ic: run_chain(ctx, ic[1], "corr%d" % ic[0]), list(enumerate(chains)))
@@ -541,10 +703,14 @@ def correspondence(ctx):
         sspans.append((len(cases) + 1, len(s["events"])))
         cases.append(["reset"])
         cases.extend(s["events"])
+    dspan = len(cases)
+    for ps, m, _ in decisions:
+        cases.append(["decide", ps, m])
     model = core.run_driver(PROP, cases)
 
     disagreements = []
-    dist = {"file_compression_by_mode": {}, "block_compression": {}, "ends": {}, "modes": {}, "ops": {}, "entities": {}, "arrays": {}, "append_rounds": 0,
+    dist = {"profiles": {}, "fapl_probes": {}, "open_decisions": {},
+            "file_compression_by_mode": {}, "block_compression": {}, "ends": {}, "modes": {}, "ops": {}, "entities": {}, "arrays": {}, "append_rounds": 0,
             "max_array_elements": 0, "session_events": {}, "session_impl_errors": 0}
     seen = set()
     samples = []
@@ -580,16 +746,33 @@ def correspondence(ctx):
         seen.add(core.sha(core.canon(s["events"])))
         if k < 3:
             samples.append({"case": s, "model": mod})
+    for (ps, m, impl), mod in zip(decisions, model[dspan:dspan + len(decisions)]):
+        dist["open_decisions"]["%s/%s" % (ps, m)] = impl
+        want = {"ok": impl[1:]} if impl[0] == "ok" else {"err": impl[1]}
+        if mod != want:
+            disagreements.append(Disagreement({"kind": "decide", "path": ps, "mode": m}, {"model": mod},
+                                              {"impl": want}))
+    for chain, recs in zip(chains, allrecs):
+        if chain.get("kind") == "fapl":
+            g = chain["gens"][0]
+            o = (recs[-1]["obs"] or {}).get("r", {}) if recs else {}
+            key = "%s..%s/%s" % (g["fapl"][0], g["fapl"][1], g["end"])
+            dist["fapl_probes"][key] = "refused" if "open_error" in o else "opens"
     dist["walks_not_stable_in_process"] = nonstable
     dist["anchors_changed"] = changed
-    ctx.c17_recs = list(zip(chains, allrecs))
+    ctx.c17_recs = [(c, r) for c, r in zip(chains, allrecs) if c.get("kind") != "fapl"]
     return {"evaluations": n_kills + len(sessions), "distinct_nontrivial": len(seen),
             "rule": "kill chains: %d writer processes in %d chains (each: seeded history over all entity kinds, "
                     "walk recorded at every flush point, flush/close/with-exit, SIGKILL, reopen r + a in a fresh "
                     "process), model fed the put/del differences between flush points plus random write-back "
-                    "events; session stream: %d in-process call sequences over open/put/del/flush/close/exit. "
+                    "events (incl. chains with a phase of a single kind of write - in place, deletions, appends, attributes "
+                    "- between two flush points, and %d probes of the open-path model: writers whose property list "
+                    "carries library-version bounds, model vs libhdf5); File.__init__'s decision for every "
+                    "(path state, mode) with the h5py call and flag it reaches; session stream: %d in-process call "
+                    "sequences over open/put/del/flush/close/exit. "
                     "non-trivial = distinct final file states (hash of the flattened walk) + distinct session "
-                    "sequences" % (n_kills, len(chains), len(sessions)),
+                    "sequences" % (n_kills, len(chains), sum(1 for c in chains if c.get("kind") == "fapl"),
+                                   len(sessions)),
             "samples": samples, "distribution": dist, "disagreements": disagreements, "exhaustive": False,
             "kills": n_kills}
 
@@ -607,7 +790,8 @@ def negative_control(ctx, chains):
         out = ctx.tmpfile("%s.out.json" % tag)
         g = chain["gens"][0]
         spec = {"file": path, "mode": "w", "seed": gen_seed(chain, 0), "phases": g["phases"], "end": "none",
-                "out": out, "big": g.get("big", True), "kill": True, "compression": g.get("compression")}
+                "out": out, "big": g.get("big", True), "kill": True, "compression": g.get("compression"),
+                "profiles": g.get("profiles")}
         rc, err = _run_py(ctx, spec, tag)
         o = _load(out)
         if o is None or rc != -9:
@@ -650,8 +834,15 @@ def oracle(ctx, broken, hints):
     kills = 0
     own = []
     while kills < n_own:
-        c = gen_chain(rng, quick, n_gens=rng.choice([1, 1, 2]),
-                      stratum=(FILE_COMPRESSIONS[len(own) % 3], rng.choice(["flush", "flush", "close", "flush_flush"])))
+        i = len(own)
+        if i % 2 == 1:
+            # a phase of one kind of write (in place / deletions / appends / attributes) between two flush points
+            c = gen_profile_chain(rng, SPECIAL_PROFILES[(i // 2) % len(SPECIAL_PROFILES)], quick,
+                                  reopen=(i % 10 == 9))
+        else:
+            c = gen_chain(rng, quick, n_gens=rng.choice([1, 1, 2]),
+                          stratum=(FILE_COMPRESSIONS[(i // 2) % 3],
+                                   rng.choice(["flush", "flush", "close", "flush_flush"])))
         own.append(c)
         kills += len(c["gens"])
     chains += own
@@ -688,18 +879,26 @@ def replay_failure(ctx, fj):
 READY = True
 MANIFEST = {
     "level_text": "Kernel-checked protocol theorems over a two-level disk/cache model of nixio.File with "
-                  "nondeterministic library write-back, whose flush/close/__exit__ bodies are regenerated from "
-                  "file.py on every run: any body that flushes before it closes is durable against SIGKILL after "
-                  "every history and every write-back behaviour (induction over bodies, tails and chains of "
-                  "writer processes); nothing flushed is lost over any number of kill/reopen cycles. The part "
-                  "that is runtime truth (libhdf5's H5Fflush, the OS page cache) is validated differentially: "
-                  "seeded child processes run generated histories on real HDF5 files, flush/close, SIGKILL "
-                  "themselves, and the reopened file (read-only and read-write) is compared with the walk "
-                  "recorded at the flush and with the model.",
-    "level_note": "Partial by nature: the theorem fixes the protocol (flush reaches h5py File.flush on the file "
-                  "object; close flushes before the h5py close; with-exit closes); that H5Fflush + the OS make the "
-                  "bytes durable is exercised, not proved. Trusted: Lean kernel, the file.py body translator, "
-                  "the canonical walk, the child-process harness.",
+                  "nondeterministic library write-back, whose flush/close/__exit__ bodies, File.__init__ decision "
+                  "table, mode -> access-flag map and make_fapl() calls are regenerated from file.py on every run: "
+                  "any body that flushes before it closes is durable against SIGKILL after every history and "
+                  "every write-back behaviour (induction over bodies, tails and chains of writer processes); "
+                  "nothing flushed is lost over any number of kill/reopen cycles; with the open path as coded "
+                  "(file created at the named path, no library-version bound that makes libhdf5 mark the file "
+                  "persistently as open for write) the reopen after the kill is not refused (refinement theorem), "
+                  "and either condition dropped loses the flushed state in the model. The part that is runtime "
+                  "truth (libhdf5's H5Fflush, the OS page cache, the superblock mark) is validated "
+                  "differentially: seeded child processes run generated histories on real HDF5 files, "
+                  "flush/close, SIGKILL themselves, and the reopened file (read-only and read-write) is compared "
+                  "with the walk recorded at the flush and with the model.",
+    "level_note": "Partial by nature: the theorems fix the protocol (flush reaches h5py File.flush on the file "
+                  "object; close flushes before the h5py close; with-exit closes; the file is created/opened at "
+                  "the named path with a non-locking property list); that H5Fflush + the OS make the bytes "
+                  "durable is exercised, not proved. After a flush followed by further writes the property "
+                  "promises nothing and nothing is claimed (the model loses such writes: C17_unflushed_can_lose). "
+                  "Trusted: Lean kernel, the two file.py translators, the canonical walk, the child-process harness.",
     "technique": "Lean 4 proof (invariants + induction over statement bodies, event tails and session chains; "
-                 "decidable shape predicates on regenerated bodies) with child-process kill correspondence",
+                 "refinement between the model with and without the open path; decidable shape predicates and a "
+                 "symbolically executed decision table on regenerated definitions) with child-process kill "
+                 "correspondence",
 }
